@@ -8,7 +8,11 @@ F1 = ({'write_buffer': 65536}, ['open', 'put 61 @3:1', 'compact * *', 'put 61 @3
       'put 6b @3:4', 'compact 7a 7a', 'compact 61 61', 'layout', 'repair 0', 'get 6b -', 'get 61 -', 'scan -', 'layout'])
 
 def run(rep, tier, seed):
-    pr = vlib.coq_check('C19'); rep.add_proof(pr)
+    pr = vlib.coq_check('C19')
+    pr2 = vlib.coq_check('C19b')      # the salvage loop of convert_log_to_table (RepairLog.v)
+    pr['theorems'] += pr2['theorems']; pr['ok'] = pr['ok'] and pr2['ok']; pr['closed_count'] = pr.get('closed_count', 0) + pr2.get('closed_count', 0)
+    pr['axioms'] = sorted(set(pr['axioms']) | set(pr2['axioms'])); pr['log'] += pr2['log']; pr['file'] += ' + coq/theories/Properties_C19b.v'
+    rep.add_proof(pr)
     if not pr['ok']:
         rep.violation({'kind': 'proof-broken', 'log': pr['log'][-3000:], 'forbidden': pr['forbidden']}, suffix='no-failing-input-found')
     nh, nops = (32, 110) if tier == 'quick' else (1200, 300)
@@ -25,8 +29,9 @@ def damaged_log_segment(rep, tier, seed):
     parse as a write batch: write n single-record batches (no flush), close, overwrite the first operation tag of one
     middle record (repair reads logs without checksum verification, so the record is delivered and fails to apply),
     lose the metadata, ldb_repair + ldb_open, and compare the contents with the application of all OTHER batches."""
-    import os, shutil, subprocess, k2lib, k3lib
+    import os, shutil, subprocess, k2lib, k3lib, k3lift
     out = vlib.scratch_dir(); k2 = vlib.build_k2(out, 'nothread')
+    model = k2lib.Model(vlib.ensure_model())
     rng = vlib.Rng(seed ^ 0xD0C19)
     ncase = 12 if tier == 'quick' else 300
     for c in range(ncase):
@@ -80,12 +85,32 @@ def damaged_log_segment(rep, tier, seed):
                     else: m[k] = v
             return m
         allowed = [apply(t) for t in range(len(batches[j]) + 1)]
+        # the exact expectation: the salvage loop of RepairLog.v (theorems Properties_C19b.v) on the records as damaged
+        recs = []
+        for ri, o in enumerate(offs):
+            ln = data[o - 3] | (data[o - 2] << 8)
+            recs.append(bytes(data[o:o + ln]).hex() or '-')
+        mo = model.ask('salvage_case ' + ','.join(recs))
+        mbody = mo.split(' ok=')[0]
+        want_m = {}
+        if mbody not in ('.', ''):
+            for t in mbody.split(','):
+                k_, v_ = t.split('=')
+                want_m[bytes.fromhex(k_) if k_ != '-' else b''] = bytes.fromhex(v_) if v_ != '-' else b''
+        got_m = {k_: k3lift.pattern(v_) for k_, v_ in content.items()}
+        rep.count('salvage_model_cases')
+        if st == '0' and got_m != want_m and content in allowed:
+            rep.violation({'kind': 'repair-salvage-differs-from-model', 'history': ops, 'options': opts, 'damaged_record': j, 'damage': how,
+                           'model': mo[:2000], 'implementation': {k.hex(): v for k, v in sorted(content.items())},
+                           'correspondence_that_no_longer_checks': 'RepairLog.v (salvage loop of convert_log_to_table): theorems Properties_C19b.*'},
+                          suffix='no-failing-input-found')
         if st != '0' or content not in allowed:
             want = allowed[0]
             diff = sorted(k.hex() for k in set(want) | set(content) if want.get(k) != content.get(k))[:8]
             rep.violation({'kind': 'repair-lost-intact-log-records', 'history': ops, 'options': opts, 'damaged_record': j, 'damage': how,
                            'detail': 'after repair the contents are not the application of the intact batches (keys %s differ from dropping batch %d entirely)' % (diff, j),
                            'implementation': {k.hex(): v for k, v in sorted(content.items())}})
+    model.close()
     rep.cov['damaged_log_repairs'] = ncase
 
 def replay(rep, path):
